@@ -49,19 +49,26 @@ Proof.
     { intros f d Hf Hbz. apply busy_true in Hbz as (_ & Hd0 & Hp). apply busy_intro; auto. now rewrite <- Hop. }
     split; [exact HS'|]. split; [exact HB'|]. split; [cbn; now rewrite Hbad|]. split.
     + (* at most one alive active node per database *)
-      assert (forall j X d, j <> i -> nth_error (w_nodes w) j = Some X -> busy active_pc d nd' = true -> busy active_pc d X = true -> False) as Hpair.
-      { intros j X d Hj Hn B1 B2. destruct (active_pc (n_pc nd)) eqn:Eact.
-        - apply (Hone i j nd X d); auto.
-        - pose proof (busy_true _ _ _ B1) as (_ & Hd0 & Hp). rewrite Hop in Hd0. subst d.
-          rewrite (Hact Hp eq_refl j X Hj Hn) in B2. discriminate. }
+      destruct (do_step_phase _ _ _ _ _ _ _ D) as [Hph1 Hph2].
+      assert (forall j X d, j <> i -> nth_error (w_nodes w) j = Some X -> busy active_pc d nd' = true -> busy active_pc d X = true ->
+                (weakfin nd' = true /\ n_pc X = PInsCfg) \/ (weakfin X = true /\ n_pc nd' = PInsCfg)) as Hpair.
+      { intros j X d Hj Hn B1 B2. pose proof (busy_true _ _ _ B1) as (_ & Hd0 & Hp).
+        destruct (active_pc (n_pc nd)) eqn:Eact.
+        - assert (busy active_pc d nd = true) as B0 by (apply Hbz; auto).
+          destruct (Hone i j nd X d (fun E0 => Hj (eq_sym E0)) Hi Hn B0 B2) as [[Hw Hx]|[Hw Hx]].
+          + left. split; [|exact Hx]. unfold weakfin in *. apply andb_true_iff in Hw as [Hw1 Hw2].
+            rewrite (Hph1 Hw1 Hp), Hop. exact Hw2.
+          + right. split; [exact Hw | exact (Hph2 Hx Hp)].
+        - right. rewrite Hop in Hd0. subst d. exact (Hact Hp eq_refl j X Hj Hn B2). }
       intros a c na nc d Hac Hna Hnc B1 B2. cbn in Hna, Hnc.
       destruct (Nat.eq_dec a i) as [->|Hai]; destruct (Nat.eq_dec c i) as [->|Hci].
       * contradiction.
       * rewrite (nth_error_set_nth_eq _ _ _ _ Hi) in Hna. injection Hna as <-.
         rewrite nth_error_set_nth_neq in Hnc by congruence. eapply Hpair; eauto.
       * rewrite (nth_error_set_nth_eq _ _ _ _ Hi) in Hnc. injection Hnc as <-.
-        rewrite nth_error_set_nth_neq in Hna by congruence. eapply Hpair; eauto.
-      * rewrite nth_error_set_nth_neq in Hna, Hnc by congruence. eapply Hone; eauto.
+        rewrite nth_error_set_nth_neq in Hna by congruence.
+        destruct (Hpair a na d Hai Hna B2 B1) as [?|?]; [now right | now left].
+      * rewrite nth_error_set_nth_neq in Hna, Hnc by congruence. exact (Hone a c na nc d Hac Hna Hnc B1 B2).
     + intros j X Hj. cbn in Hj. destruct (Nat.eq_dec j i) as [->|Hji].
       * rewrite (nth_error_set_nth_eq _ _ _ _ Hi) in Hj. injection Hj as <-.
         split; [exact Hcas'|]. split; [exact Hwf'|]. split; [exact HLI'|]. intros _.
@@ -82,7 +89,7 @@ Proof.
       * rewrite (nth_error_set_nth_eq _ _ _ _ Hi) in Hna. injection Hna as <-. rewrite Hbz in B1. discriminate.
       * destruct (Nat.eq_dec c i) as [->|Hci].
         -- rewrite (nth_error_set_nth_eq _ _ _ _ Hi) in Hnc. injection Hnc as <-. rewrite Hbz in B2. discriminate.
-        -- rewrite nth_error_set_nth_neq in Hna, Hnc by congruence. eapply Hone; eauto.
+        -- rewrite nth_error_set_nth_neq in Hna, Hnc by congruence. exact (Hone a c na nc d Hac Hna Hnc B1 B2).
     + intros j X Hj. cbn in Hj. destruct (Nat.eq_dec j i) as [->|Hji].
       * rewrite (nth_error_set_nth_eq _ _ _ _ Hi) in Hj. injection Hj as <-. destruct (HN _ _ Hi) as (A & B & C & _).
         split; [exact A|]. split; [exact B|]. split; [exact C|]. cbn. discriminate.
@@ -130,12 +137,13 @@ Proof. intros H. apply registry_ownership_all. now apply no_bad_adopt_racing. Qe
 Lemma all_along_app f w a b : all_along f w (a ++ b) = all_along f w a && all_along f (fold_left step a w) b.
 Proof. revert w. induction a as [|e a IH]; intros w; cbn; [reflexivity|]. rewrite IH. now rewrite andb_assoc. Qed.
 
-(* the step that acknowledges a change leaves exactly that change in the store *)
+(* the step that acknowledges a change leaves exactly that change in the store (for a delete: or a database that a
+   concurrent writer created again after the config document was deleted -- acked_r) *)
 Theorem acked_visible_racing ops evs i ex pk nd nd' :
   race_hyps ops (evs ++ [Step i ex pk]) = true ->
   nth_error (w_nodes (run ops evs)) i = Some nd -> n_pc nd <> PDone ROk ->
   nth_error (w_nodes (run ops (evs ++ [Step i ex pk]))) i = Some nd' -> n_pc nd' = PDone ROk ->
-  acked_state (n_op nd') (w_st (run ops (evs ++ [Step i ex pk]))).
+  acked_r (n_op nd') (w_st (run ops (evs ++ [Step i ex pk]))).
 Proof.
   rewrite race_hyps_all, all_along_app. intros H Hn Hnok Hn' Hok'. apply andb_true_iff in H as [H1 H2].
   fold (run_from init_store ops evs) in H2. fold (run ops evs) in H2.
@@ -167,7 +175,7 @@ Proof.
   destruct (step_self _ _ _ _ _ _ _ _ HW Hi Hal Hdn Ha Hb Hc Hd D) as (_ & _ & _ & Heff & _).
   destruct (HN _ _ Hi) as (_ & Hwf & _).
   specialize (Hops i ex pk nd eq_refl Hi).
-  destruct Heff as [->|k (Hcur & Est & Hmod & _ & _ & _ & Hkey)|d0 (Hr & _ & Hsame & _ & Hkind)].
+  destruct Heff as [->|k (Hcur & Est & Hmod & _ & _ & _ & _ & Hkey)|d0 (Hr & _ & Hsame & _ & Hkind)].
   - apply same_db_refl.
   - assert (k <> d) as Hkd.
     { destruct (is_load (n_op nd)) eqn:El; [intros ->; contradiction|]. destruct Hops as [?|Hops]; [discriminate|]. congruence. }
